@@ -33,12 +33,14 @@ PInit == /\ tid \in 1 .. Len(Traces)
 
 (* the back end's choice is the logged matching *)
 EndSolveLogged == EndSolve /\ (result' = T.matching \/ (result' = <<>> /\ T.matching = <<>>))
-PNext == /\ (BeginSolve \/ SolveStep \/ BFRun \/ (nruns = 0 /\ EndSolveLogged)) /\ nruns = 0
+(* load-only traces (files too large to solve inside TLC): Construct is the whole behaviour *)
+PNext == /\ ~T.loadonly
+         /\ (BeginSolve \/ SolveStep \/ BFRun \/ (nruns = 0 /\ EndSolveLogged)) /\ nruns = 0
          /\ UNCHANGED tid
 PSpec == PInit /\ [][PNext]_pvars
 
 RunOver == phase = "solving" /\ ~MoreSolves
-Judged == RunOver \/ phase = "refused" \/ (phase = "solved" /\ opts.bf)
+Judged == RunOver \/ phase = "refused" \/ (phase = "solved" /\ opts.bf) \/ (T.loadonly /\ phase = "ready")
 
 (* Archive traces: result files shipped with the repository under Evaluations/ *)
 (* (written by an older version: scalar student costs, no size line, no loaded  *)
@@ -86,7 +88,11 @@ BFFails ==
     \cup (IF T.exception = "" THEN {} ELSE {"no_exception"})
     \cup (IF T.exception = "" /\ T.bfres # bf.res THEN {"bf_equals_optimum"} ELSE {})
 
+LoadFails ==
+    (IF T.loaded = inst THEN {} ELSE {"loaded_equals_file"})
+    \cup (IF WellFormed(inst) THEN {} ELSE {"file_is_well_formed_instance"})
 Fails == IF phase = "refused" THEN {"loads_without_error"}
+         ELSE IF T.loadonly THEN LoadFails
          ELSE IF T.archive THEN (IF opts.bf THEN ArchiveBFFails ELSE ArchiveLPFails)
          ELSE IF opts.bf THEN BFFails ELSE LPFails
 
